@@ -12,7 +12,7 @@ use crate::proto::{Ctx, attrs};
 pub fn meta() -> Meta {
     Meta {
         level: "model_checking",
-        rule: "`mtswap`: MTBDD (I64, 3 variables, apply cache 1/2/16/4096): every operator of {add,sub,mul,div,min,max} on every ordered pair of an 81-table set (quick: 27 x 81), then on the exchanged pair, then on the first pair again, back to back; every answer = pointwise model. Further: every history of depth d (quick 4, thorough 5) over 13 actions (5 kind-specific operations incl. different operators on the same operand registers, clone, drops, gc, add_vars, reverse/rotate reordering) for bdd, bcdd, zbdd, mtbdd, tdd (and MTBDD alphabets whose results are bare terminals, on terminal tables of 4..6 entries so that terminal ids are recycled within a history; thorough: also F64 terminals; bdd/zbdd (thorough: bcdd) also with an edge-level operation computed inside the closure of Manager::reorder before the levels are moved) is executed in lock-step on five managers that differ only in the apply cache: capacities 1, 2, 16, 4096 and a capacity-16 manager warmed up by 50 unrelated operations; after every step every register of every manager must denote the model's table and have the model's minimal node count (hence all managers agree), and every operation is re-issued once with the same operands and must return the same handle. Capacity 1 puts all entries in one bucket, so a key comparison that ignores the operator or an operand is hit by the second operation. states = distinct model states, transitions = checked steps, executions = histories (each on 5 managers).",
+        rule: "`mtswap`: MTBDD (I64, 3 variables, apply cache 1/2/16/4096): every operator of {add,sub,mul,div,min,max} on every ordered pair of an 81-table set (thorough: 256 tables), then on the exchanged pair, then on the first pair again, back to back; every answer = pointwise model. Further: every history of depth d (quick 4, thorough 5) over 13 actions (5 kind-specific operations incl. different operators on the same operand registers, clone, drops, gc, add_vars, reverse/rotate reordering) for bdd, bcdd, zbdd, mtbdd, tdd (and MTBDD alphabets whose results are bare terminals, on terminal tables of 4..6 entries so that terminal ids are recycled within a history; thorough: also F64 terminals; bdd/zbdd (thorough: bcdd) also with an edge-level operation computed inside the closure of Manager::reorder before the levels are moved) is executed in lock-step on five managers that differ only in the apply cache: capacities 1, 2, 16, 4096 and a capacity-16 manager warmed up by 50 unrelated operations; after every step every register of every manager must denote the model's table and have the model's minimal node count (hence all managers agree), and every operation is re-issued once with the same operands and must return the same handle. Capacity 1 puts all entries in one bucket, so a key comparison that ignores the operator or an operand is hit by the second operation. states = distinct model states, transitions = checked steps, executions = histories (each on 5 managers).",
         assumptions: vec![
             "operator pairs on identical operands beyond the 5-operation alphabet per kind (quantifiers with the same cube, subset0/subset1/change, alternating substitutions) are enumerated in C04/C09/C10/C11's interleaved groups".into(),
         ],
@@ -104,18 +104,19 @@ pub fn run(ctx: &mut Ctx) {
 }
 
 /// MTBDD over I64, 3 variables, apply cache of `cap` entries: for every ordered pair (f, g) of an 81-table
-/// set (quick: every pair with one of 27 tables as f) and every operator: op(f, g), op(g, f), op(f, g) again,
+/// set (thorough: 256 tables) and every operator: op(f, g), op(g, f), op(f, g) again,
 /// issued back to back on a manager that keeps only the operands alive; each answer must be the pointwise
 /// lifting of the model operator, whatever was memoised by the request before.
 fn mtswap(ctx: &mut Ctx, cap: usize) {
     use crate::mtbdd::{self as mt, MOPS, MtI64, MtKind, Num};
-    let alpha = [1i64, 2, 4];
+    let alpha: &[i64] = if ctx.thorough() { &[1, 2, 4, 12] } else { &[1, 2, 4] };
+    let k = alpha.len();
     let mut tabs: Vec<Vec<Num>> = vec![];
-    for i in 0..81usize {
-        let base: Vec<i64> = (0..4).map(|d| alpha[(i / 3usize.pow(d)) % 3]).collect();
+    for i in 0..k.pow(4) {
+        let base: Vec<i64> = (0..4).map(|d| alpha[(i / k.pow(d)) % k]).collect();
         tabs.push((0..8usize).map(|a| Num::Int(base[a & 3] * (1 + (a >> 2) as i64))).collect());
     }
-    let step = if ctx.thorough() { 1 } else { 3 };
+    let step = 1;
     ctx.group(&format!("mtbdd operand pairs in both orders, cache {cap}"), |ctx| {
         let mref = mt::fresh::<MtI64>(3, &[0, 1, 2], 1 << 16, 1 << 10, cap, 1);
         let fs: Vec<_> = tabs.iter().map(|t| MtI64::build(&mref, t).expect("harness: operand")).collect();
